@@ -123,3 +123,39 @@ Theorem C01_compile_is_layout : forall lines plines dp,
   /\ pg_direct (compile_asts lines dp) = 0 /\ pg_ind_errors (compile_asts lines dp) = [].
 Proof. exact compile_is_layout. Qed.
 Print Assumptions C01_compile_is_layout.
+
+(* ---- control flow, part 2 (Proofs/Flow2.v): the layout made explicit, and what linking does to it ---- *)
+From BL Require Import Proofs.Flow2.
+
+(* the symbol of a line is the address where its code starts; a statement's code sits behind the code of the statements
+   before it; its references are recorded at their absolute addresses *)
+Theorem C01_line_address : forall before n ps after lo, ascending (before ++ (n, ps) :: after) lo ->
+  zassoc_get (Z.of_N n) (line_syms (before ++ (n, ps) :: after) 0) = Some (lenN (prog_ops before), 0).
+Proof. exact line_address. Qed.
+Print Assumptions C01_line_address.
+
+Theorem C01_piece_address : forall before n pb p pa after i op, nth_error (pc_ops p) i = Some op ->
+  nthN (prog_ops (before ++ (n, pb ++ p :: pa) :: after)) (lenN (prog_ops before) + lenN (flat_map pc_ops pb) + N.of_nat i) = Some op.
+Proof. exact piece_address. Qed.
+Print Assumptions C01_piece_address.
+
+(* linking a compiled program of the fragment that ends in END: the code is the layout's code with every recorded
+   reference patched through the symbol table, and the direct-mode area starts right behind it *)
+Theorem C01_link_layout : forall P pls dp lo, pg_link P = layout pls dp -> pg_direct P = 0 -> ascending pls lo ->
+  last_is_end (prog_ops pls) = true -> last_nonempty pls ->
+  l_ops (pg_link (program_link P)) = final_ops pls /\ pg_direct (program_link P) = lenN (final_ops pls)
+  /\ l_data (pg_link (program_link P)) = [] /\ l_data_pos (pg_link (program_link P)) = dp.
+Proof. exact link_layout. Qed.
+Print Assumptions C01_link_layout.
+
+(* a GOTO / ON..GOTO slot holds, after linking, a jump to the first instruction of the target line; everything else is untouched *)
+Theorem C01_linked_jump : forall pls a c n' s', good_prog pls ->
+  In (a, (c, Z.of_N n')) (line_refs pls 0) -> nthN (prog_ops pls) a = Some (OpJump 0) ->
+  zassoc_get (Z.of_N n') (line_syms pls 0) = Some (s', 0) ->
+  nthN (final_ops pls) a = Some (OpJump s').
+Proof. exact final_jump. Qed.
+Print Assumptions C01_linked_jump.
+
+Theorem C01_linked_other : forall pls a, ~ In a (map fst (line_refs pls 0)) -> nthN (final_ops pls) a = nthN (prog_ops pls) a.
+Proof. exact final_other. Qed.
+Print Assumptions C01_linked_other.
